@@ -5,8 +5,13 @@ import Frp.Props.C04
   real server.Service) on `Frp.AuthGate` and evaluates `C04.holdsOn` on what the implementation did.
 
   `H` is instantiated per op with the digest the harness computed independently
-  (`exp` = md5(token ++ decimal ts) via crypto/md5, not via frp); `oidcVerify` is the harness's stub
-  ("s:<subject>").  Run ids chosen by frps (`util.RandID`) are taken from the implementation's answer
+  (`exp` = md5(token ++ decimal ts) via crypto/md5, not via frp).  OIDC: in `o` episodes the verifier is the
+  harness's stub ("s:<subject>" = a well-formed, well-signed token of that subject; every check switched
+  off); in `O` episodes frps runs the real go-oidc verifier against the harness's provider and the op line
+  names the claims of the token the real `OidcAuthProvider` obtained (`ologin` / `oping` / `owork`): the model
+  decides at claim level (`AuthGate.oidcVerify`).  `S` episodes: frps with the ssh tunnel gateway; `ssh` ops
+  are replayed with `AuthGate.gwTunnel`, the authorized_keys content is state (`akset`).
+  Run ids chosen by frps (`util.RandID`) are taken from the implementation's answer
   (relational: the model checks the rest of the outcome and continues from the observed id).
 -/
 namespace Frp
@@ -19,6 +24,14 @@ structure PeerState where
   pre  : Srv := Srv.empty                    -- model state before the last op
   rids : List (String × RunId) := []         -- cid ↦ run id a successful login on cid got
   lastRefused : Bool := false                -- the implementation refused the last attempt
+  implDump : Option String := none           -- the implementation's own last table dump
+  quiet : Bool := false                      -- every op since that dump was an attempt the implementation refused
+  diverged : Bool := false                   -- model and implementation disagreed earlier in this episode: predicates
+                                             -- that need the model's tables are no longer evaluated
+  real : Bool := false                       -- `O` episode: keys are JWTs; a raw key is not one
+  gw : Bool := false                         -- `S` episode: the ssh tunnel gateway is enabled
+  akSet : Bool := false                      -- `S` episode: authorizedKeysFile configured
+  ak : Option (List (PubKey × Str)) := none  -- what loadAuthorizedKeysFromFile returns now (none = error)
 
 def peerCid (t : String) : Option Nat :=
   match t.toList with
@@ -31,7 +44,82 @@ def peerStub (k : Key) : Option Subject :=
   | 115 :: 58 :: c :: rest => some (c :: rest)
   | _ => none
 
-def peerPrim (exp : Key) : Prim := { H := fun _ _ => exp, oidcVerify := peerStub }
+def peerStubClaims (k : Key) : Option Claims :=
+  (peerStub k).map fun sub => { iss := [], aud := [], sub := sub, exp := 0, nbf := none }
+
+/-- raw keys: the token digest is `exp`; as an OIDC key a raw string is the stub's token in `o` episodes and
+    not a JWT at all in `O` episodes -/
+def peerPrimR (real : Bool) (exp : Key) : Prim :=
+  { H := fun _ _ => exp, jwtClaims := if real then fun _ => none else peerStubClaims,
+    jwtSigOk := fun _ => !real, now := 0 }
+
+def peerToken : Str := Str.ofString "s3cr3t-tok"
+def peerIss : Str := Str.ofString "ISSUER"
+def peerOtherIss : Str := Str.ofString "OTHER-ISSUER"
+def peerDefaultAud : Str := Str.ofString "default-aud"
+
+/-- the token an `ologin` / `oping` / `owork` line describes (harness/eng_peer_auth.go) -/
+structure PeerSpec where
+  client : Str
+  secok : Bool
+  caud : Str
+  audx : Str
+  iss : String
+  exp : String
+  nbf : String
+  sig : String
+
+def peerSpec : List String → Option PeerSpec
+  | [client, secok, caud, audx, _scope, iss, exp, nbf, sig] =>
+    match unhx client, unhx caud, unhx audx with
+    | some client, some caud, some audx =>
+      some { client := client, secok := secok = "1", caud := caud, audx := audx, iss := iss, exp := exp, nbf := nbf, sig := sig }
+    | _, _, _ => none
+  | _ => none
+
+def PeerSpec.claims (sp : PeerSpec) : Option Claims :=
+  if sp.sig = "raw" then none else
+  some { iss := if sp.iss = "g" then peerIss else if sp.iss = "b" then peerOtherIss else [],
+         aud := (if sp.audx = [] then [] else [sp.audx]) ++ [if sp.caud = [] then peerDefaultAud else sp.caud],
+         sub := sp.client,
+         exp := if sp.exp = "f" then 3600 else if sp.exp = "p" then -3600 else -62135596800,  -- none: the zero time
+         nbf := if sp.nbf = "p" then some (-3600) else if sp.nbf = "s" then some 120
+                else if sp.nbf = "f" then some 3600 else none }
+
+/-- the setter cannot obtain a token: wrong client secret / a response without access_token -/
+def PeerSpec.setErr (sp : PeerSpec) : Bool := !sp.secok || sp.sig = "empty"
+
+/-- keys of spec ops: `[1]` stands for the minted token, `[]` for "the setter left the key empty".
+    Outside `O` episodes (a shrunk sequence that lost its reset) the token goes to a token / stub verifier,
+    for which a JWT is just a wrong key. -/
+def peerPrimS (real : Bool) (sp : PeerSpec) : Prim :=
+  { H := fun _ _ => [0], jwtClaims := fun k => if k = [] || !real then none else sp.claims,
+    jwtSigOk := fun k => k ≠ [] && sp.sig = "k1", now := 0 }
+
+/-- ssh ops: the virtual client's key is `GetAuthKey(--token, now)`; only equality of tokens matters -/
+def peerPrimG : Prim := { H := fun tok _ => tok, jwtClaims := fun _ => none, jwtSigOk := fun _ => false, now := 0 }
+
+def peerKeyA : PubKey := [65]
+def peerKeyB : PubKey := [66]
+def peerKeyC : PubKey := [67]
+
+def peerAkMode : String → Option (Option (List (PubKey × Str)))
+  | "AB" => some (some [(peerKeyA, Str.ofString "alice"), (peerKeyB, [])])
+  | "A" => some (some [(peerKeyA, Str.ofString "alice")])
+  | "B" => some (some [(peerKeyB, [])])
+  | "A2" => some (some [(peerKeyA, Str.ofString "alice"), (peerKeyB, []), (peerKeyA, Str.ofString "zed")])
+  | "empty" => some (some [])
+  | "garbage" => some none
+  | "missing" => some none
+  | _ => none
+
+def peerSshAuth : String → Option SshAuth
+  | "none" => some .none
+  | "A" => some (.pubkey peerKeyA true)
+  | "B" => some (.pubkey peerKeyB true)
+  | "C" => some (.pubkey peerKeyC true)
+  | "Af" => some (.pubkey peerKeyA false)
+  | _ => none
 
 def peerRidref (st : PeerState) (t : String) : Option RunId :=
   match t.toList with
@@ -57,65 +145,115 @@ def peerRender (srv : Srv) : String :=
 
 def peerIsNet (tr : String) : Bool := tr ∈ ["tcp", "tls", "ws", "kcp", "quic"]
 
-def peerStep (st : PeerState) (tok : List String) (impl : String) : PeerState × Verdict :=
+/-- key accepted by the configured method at login -/
+def peerLoginKv (pr : Prim) (cfg : Cfg) (ts : Int) (key : Key) : Bool :=
+  match cfg.method with
+  | .token => decide (pr.H cfg.token ts = key)
+  | .oidc => (oidcVerify pr cfg.oidc key).isSome
+
+def peerLogin (st : PeerState) (pr : Prim) (c : Nat) (cid tr : String) (rid : RunId) (ts : Int) (key : Key)
+    (aap : Bool) (pool : Nat) (impl : String) : PeerState × Verdict :=
+  if !(peerIsNet tr || tr = "int") then (st, .bad "transport") else
+  let internal := tr = "int"
+  let implRid : Option RunId := if impl.startsWith "ok:" then unhx (impl.drop 3).toString else none
+  let m : Login := { runId := rid, ts := ts, key := key, aap := aap, poolCount := pool, genId := implRid.getD [] }
+  let (srv', out) := handleFirst Plugins.id pr st.cfg st.srv internal c (.login m)
+  let ms := match out.reply with
+    | .loginOk r => "ok:" ++ hx r
+    | _ => if out.closed then "err:closed" else "err:open"
+  let prop : Option Bool :=
+    if impl.startsWith "ok:" then some (C04.holdsOn (.sessionCreated internal aap (peerLoginKv pr st.cfg ts key)))
+    else if impl = "err:open" then some false      -- refused but left open
+    else none
+  let rids' := match out.reply with
+    | .loginOk r => (cid, r) :: st.rids
+    | _ => st.rids
+  ({ st with srv := srv', pre := st.srv, rids := rids', lastRefused := !impl.startsWith "ok:" },
+   verdictOf ms impl prop)
+
+def peerWork (st : PeerState) (pr : Prim) (c : Nat) (tr : String) (rid : RunId) (ts : Int) (key : Key)
+    (impl : String) : PeerState × Verdict :=
+  if !(peerIsNet tr || tr = "int") then (st, .bad "transport") else
+  let internal := tr = "int"
+  let m : WorkConn := { runId := rid, ts := ts, key := key }
+  let sess := lookup st.srv rid
+  let sessAp := match sess with | some s => decide (s.vk = .alwaysPass) | none => false
+  let (srv', out) := handleFirst Plugins.id pr st.cfg st.srv internal c (.work m)
+  let ms :=
+    if !out.closed then (if sessAp then "pooled:ap" else "pooled")
+    else match out.reply with
+      | .startWorkErr => "refused:closed"
+      | _ => "closed"
+  let implPooled := impl.startsWith "pooled"
+  let prop : Option Bool :=
+    if st.diverged then none else
+    if implPooled then
+      some (C04.holdsOn (.pooled sess.isSome internal sessAp st.cfg.wc
+              (keyOk pr st.cfg st.srv.subjects ts key)))
+    else if impl = "refused:open" || impl = "timeout" then some false  -- refused but left open / neither pooled nor closed
+    else none
+  ({ st with srv := srv', pre := st.srv, lastRefused := !implPooled }, verdictOf ms impl prop)
+
+def peerPing (st : PeerState) (pr : Prim) (c : Nat) (ts : Int) (key : Key) (impl : String) : PeerState × Verdict :=
+  let sess := byCtl st.srv c
+  let sessAp := match sess with | some s => decide (s.vk = .alwaysPass) | none => false
+  let (srv', out) := handlePing Plugins.id pr st.cfg st.srv c { ts := ts, key := key }
+  let ms := match out.reply with
+    | .pongOk => "pong:ok:moved"
+    | .pongErr => "pong:err:same"
+    | _ => "gone"
+  let prop : Option Bool :=
+    if st.diverged then none else
+    if impl.endsWith ":moved" then
+      some (C04.holdsOn (.pingMoved sessAp st.cfg.hb (keyOk pr st.cfg st.srv.subjects ts key)))
+    else none
+  ({ st with srv := srv', pre := st.srv, lastRefused := false }, verdictOf ms impl prop)
+
+def peerStep1 (st : PeerState) (tok : List String) (impl : String) : PeerState × Verdict :=
   match tok with
-  | ["reset", m, hb, wc] =>
-    let method := if m = "o" then Method.oidc else Method.token
-    ({ cfg := { method := method, hb := hb = "1", wc := wc = "1", token := [], maxPool := 5 } }, verdictOf "-" impl)
+  | "reset" :: m :: hb :: wc :: extra =>
+    let base : Cfg := { method := if m = "o" || m = "O" then Method.oidc else Method.token,
+                        hb := hb = "1", wc := wc = "1", token := peerToken, maxPool := 5 }
+    match m, extra with
+    | "t", [] => ({ cfg := base }, verdictOf "-" impl)
+    | "o", [] =>
+      -- the stub verifier: no issuer / audience / expiry involved
+      ({ cfg := { base with oidc := { skipExpiry := true, skipIssuer := true } } }, verdictOf "-" impl)
+    | "O", [aud, se, si] =>
+      match unhx aud with
+      | some aud =>
+        ({ cfg := { base with oidc := { issuer := peerIss, audience := aud, skipExpiry := se = "1", skipIssuer := si = "1" } },
+           real := true }, verdictOf "-" impl)
+      | none => (st, .bad "reset")
+    | "S", [ak] =>
+      ({ cfg := base, gw := true, akSet := ak = "1", ak := if ak = "1" then (peerAkMode "AB").getD none else none },
+       verdictOf "-" impl)
+    | _, _ => (st, .bad "reset")
   | ["login", cid, tr, rid, ts, key, exp, aap, pool] =>
     match peerCid cid, unhx rid, ts.toInt?, unhx key, unhx exp, pool.toNat? with
     | some c, some rid, some ts, some key, some exp, some pool =>
-      if !(peerIsNet tr || tr = "int") then (st, .bad "transport") else
-      let internal := tr = "int"
-      let pr := peerPrim exp
-      let implRid : Option RunId := if impl.startsWith "ok:" then unhx (impl.drop 3).toString else none
-      let m : Login := { runId := rid, ts := ts, key := key, aap := aap = "1", poolCount := pool,
-                         genId := implRid.getD [] }
-      let (srv', out) := handleFirst Plugins.id pr st.cfg st.srv internal c (.login m)
-      let ms := match out.reply with
-        | .loginOk r => "ok:" ++ hx r
-        | _ => if out.closed then "err:closed" else "err:open"
-      let kv := match st.cfg.method with
-        | .token => decide (exp = key)
-        | .oidc => (peerStub key).isSome
-      let prop : Option Bool :=
-        if impl.startsWith "ok:" then some (C04.holdsOn (.sessionCreated internal (aap = "1") kv))
-        else if impl = "err:open" then some false      -- refused but left open
-        else none
-      let rids' := match out.reply with
-        | .loginOk r => (cid, r) :: st.rids
-        | _ => st.rids
-      ({ st with srv := srv', pre := st.srv, rids := rids', lastRefused := !impl.startsWith "ok:" },
-       verdictOf ms impl prop)
+      peerLogin st (peerPrimR st.real exp) c cid tr rid ts key (aap = "1") pool impl
     | _, _, _, _, _, _ => (st, .bad "login")
+  | "ologin" :: cid :: tr :: rid :: aap :: pool :: spec =>
+    match peerCid cid, unhx rid, pool.toNat?, peerSpec spec with
+    | some c, some rid, some pool, some sp =>
+      if sp.setErr then ({ st with pre := st.srv, lastRefused := false }, verdictOf "seterr" impl)
+      else peerLogin st (peerPrimS st.real sp) c cid tr rid 0 [1] (aap = "1") pool impl
+    | _, _, _, _ => (st, .bad "ologin")
   | ["work", cid, tr, ref, ts, key, exp] =>
     match peerCid cid, peerRidref st ref, ts.toInt?, unhx key, unhx exp with
-    | some c, some rid, some ts, some key, some exp =>
-      if !(peerIsNet tr || tr = "int") then (st, .bad "transport") else
-      let internal := tr = "int"
-      let pr := peerPrim exp
-      let m : WorkConn := { runId := rid, ts := ts, key := key }
-      let sess := lookup st.srv rid
-      let sessAp := match sess with | some s => decide (s.vk = .alwaysPass) | none => false
-      let (srv', out) := handleFirst Plugins.id pr st.cfg st.srv internal c (.work m)
-      let ms :=
-        if !out.closed then (if sessAp then "pooled:ap" else "pooled")
-        else match out.reply with
-          | .startWorkErr => "refused:closed"
-          | _ => "closed"
-      let implPooled := impl.startsWith "pooled"
-      let prop : Option Bool :=
-        if implPooled then
-          some (C04.holdsOn (.pooled sess.isSome internal sessAp st.cfg.wc
-                  (keyOk pr st.cfg st.srv.subjects ts key)))
-        else if impl = "refused:open" || impl = "timeout" then some false  -- refused but left open / neither pooled nor closed
-        else none
-      ({ st with srv := srv', pre := st.srv, lastRefused := !implPooled }, verdictOf ms impl prop)
+    | some c, some rid, some ts, some key, some exp => peerWork st (peerPrimR st.real exp) c tr rid ts key impl
     | _, _, _, _, _ => (st, .bad "work")
+  | "owork" :: cid :: tr :: ref :: cscope :: spec =>
+    match peerCid cid, peerRidref st ref, peerSpec spec with
+    | some c, some rid, some sp =>
+      if cscope = "1" && sp.setErr then ({ st with pre := st.srv, lastRefused := false }, verdictOf "seterr" impl)
+      else peerWork st (peerPrimS st.real sp) c tr rid 0 (if cscope = "1" then [1] else []) impl
+    | _, _, _ => (st, .bad "owork")
   | ["visit", cid, tr, ref, _name] =>
     match peerCid cid, peerRidref st ref with
     | some c, some rid =>
-      let (srv', out) := handleFirst Plugins.id (peerPrim []) st.cfg st.srv (tr = "int") c (.visitor rid false)
+      let (srv', out) := handleFirst Plugins.id (peerPrimR st.real []) st.cfg st.srv (tr = "int") c (.visitor rid false)
       let ms := match out.reply with
         | .visitorOk => "vok"
         | _ => if out.closed then "verr:closed" else "verr:open"
@@ -125,7 +263,7 @@ def peerStep (st : PeerState) (tok : List String) (impl : String) : PeerState ×
     match peerCid cid with
     | some c =>
       let garbage := kind ∈ ["badtype", "zerotype", "biglen", "neglen", "badjson", "emptybody", "wrongshape"]
-      let (srv', out) := handleFirst Plugins.id (peerPrim []) st.cfg st.srv (tr = "int") c
+      let (srv', out) := handleFirst Plugins.id (peerPrimR st.real []) st.cfg st.srv (tr = "int") c
         (if garbage then .garbage else .other)
       ({ st with srv := srv', pre := st.srv, lastRefused := impl = "closed" },
        verdictOf (if out.closed then "closed" else "open") impl (if impl = "open" then some false else none))
@@ -136,21 +274,56 @@ def peerStep (st : PeerState) (tok : List String) (impl : String) : PeerState ×
      verdictOf "closed" impl (if impl = "open" then some false else none))
   | ["ping", cid, ts, key, exp] =>
     match peerCid cid, ts.toInt?, unhx key, unhx exp with
-    | some c, some ts, some key, some exp =>
-      let pr := peerPrim exp
-      let sess := byCtl st.srv c
-      let sessAp := match sess with | some s => decide (s.vk = .alwaysPass) | none => false
-      let (srv', out) := handlePing Plugins.id pr st.cfg st.srv c { ts := ts, key := key }
-      let ms := match out.reply with
-        | .pongOk => "pong:ok:moved"
-        | .pongErr => "pong:err:same"
-        | _ => "gone"
-      let prop : Option Bool :=
-        if impl.endsWith ":moved" then
-          some (C04.holdsOn (.pingMoved sessAp st.cfg.hb (keyOk pr st.cfg st.srv.subjects ts key)))
-        else none
-      ({ st with srv := srv', pre := st.srv, lastRefused := false }, verdictOf ms impl prop)
+    | some c, some ts, some key, some exp => peerPing st (peerPrimR st.real exp) c ts key impl
     | _, _, _, _ => (st, .bad "ping")
+  | "oping" :: cid :: cscope :: spec =>
+    match peerCid cid, peerSpec spec with
+    | some c, some sp =>
+      if cscope = "1" && sp.setErr then ({ st with pre := st.srv, lastRefused := false }, verdictOf "seterr" impl)
+      else peerPing st (peerPrimS st.real sp) c 0 (if cscope = "1" then [1] else []) impl
+    | _, _ => (st, .bad "oping")
+  | ["akset", mode] =>
+    if !st.gw then (st, verdictOf "nogw" impl) else
+    if !st.akSet then (st, verdictOf "noak" impl) else
+    match peerAkMode mode with
+    | some f => ({ st with ak := f, pre := st.srv, lastRefused := false }, verdictOf "-" impl)
+    | none => (st, .bad "akset")
+  | ["ssh", cid, auth, ptype, name, user, token] =>
+    if !st.gw then ({ st with pre := st.srv, lastRefused := false }, verdictOf "nogw" impl) else
+    match peerCid cid, peerSshAuth auth, unhx name, unhx user, unhx token with
+    | some c, some a, some name, some user, some token =>
+      let parts := impl.splitOn ":"
+      let implUp := impl.startsWith "up:" && parts.length = 5
+      let implRid : RunId := if implUp then (unhx (parts.getD 1 "")).getD [] else []
+      let cmd : Option GwCmd :=
+        if ptype = "tcp" || ptype = "stcp" then some { name := name, user := user, token := token } else none
+      -- the virtual client's connections are not the harness's: ids out of the range of `cid`s
+      let t : Tunnel := { auth := a, file := st.ak, cmd := cmd, conn := c + 1000000, wconn := c + 500000, ts := 0, genId := implRid }
+      let (srv', out) := gwTunnel workVerifierIsFixed Plugins.id peerPrimG st.cfg st.akSet st.srv t
+      let ms := match out with
+        | .authFail => "authfail"
+        | .closed => "closed"
+        | .up rid pname =>
+          match lookup srv' rid with
+          | some s =>
+            let e := if ptype = "tcp" && !s.pool.isEmpty then "e1" else "e-"
+            s!"up:{hx rid}:{hx pname}:{if s.vk = .alwaysPass then "1" else "0"}:{e}"
+          | none => "up:lost"
+      let prop : Option Bool :=
+        if implUp then
+          some (C04.holdsOn (.sshSession st.akSet (sshHandshake st.akSet st.ak a).isSome
+                  (decide (st.cfg.token = token)) (parts.getD 3 "" = "1")))
+        else if impl = "closed:residue" then some false       -- the tunnel is gone and something stayed behind
+        else none
+      let rids' := match out with
+        | .up r _ => (cid, r) :: st.rids
+        | _ => st.rids
+      ({ st with srv := srv', pre := st.srv, rids := rids', lastRefused := !implUp }, verdictOf ms impl prop)
+    | _, _, _, _, _ => (st, .bad "ssh")
+  | ["sshclose", cid] =>
+    match peerCid cid with
+    | some c => ({ st with srv := (sessionEnd st.srv (c + 1000000)).1, pre := st.srv, lastRefused := false }, verdictOf "-" impl)
+    | none => (st, .bad "sshclose")
   | ["nproxy", cid, name] =>
     match peerCid cid, unhx name with
     | some c, some name =>
@@ -160,7 +333,7 @@ def peerStep (st : PeerState) (tok : List String) (impl : String) : PeerState ×
         | .proxyErr => "err"
         | _ => "gone"
       -- a proxy registered although no session owns this connection: the property fails
-      let prop : Option Bool := if impl = "ok" then some (byCtl st.srv c).isSome else none
+      let prop : Option Bool := if impl = "ok" && !st.diverged then some (byCtl st.srv c).isSome else none
       ({ st with srv := srv', pre := st.srv, lastRefused := false }, verdictOf ms impl prop)
     | _, _ => (st, .bad "nproxy")
   | ["drop", cid] =>
@@ -169,10 +342,24 @@ def peerStep (st : PeerState) (tok : List String) (impl : String) : PeerState ×
     | none => (st, .bad "drop")
   | ["dump"] =>
     let ms := peerRender st.srv
-    -- after an attempt the implementation refused, its tables must be what they were before it
-    let prop : Option Bool := if st.lastRefused then some (impl = peerRender st.pre) else none
-    (st, verdictOf ms impl prop)
+    -- after attempts the implementation refused, its tables must be what they were before them: its own
+    -- previous dump
+    let prop : Option Bool :=
+      match st.quiet, st.implDump with
+      | true, some d => some (impl = d)
+      | _, _ => none
+    ({ st with implDump := some impl, lastRefused := true }, verdictOf ms impl prop)
   | _ => (st, .bad "op")
+
+def peerStep (st : PeerState) (tok : List String) (impl : String) : PeerState × Verdict :=
+  let (st', v) := peerStep1 st tok impl
+  let isReset := tok.head? = some "reset"
+  let isDiff := match v with
+    | .diff _ _ => true
+    | _ => false
+  ({ st' with quiet := if tok = ["dump"] then true else st.quiet && st'.lastRefused && !isReset,
+              implDump := if isReset then none else st'.implDump,
+              diverged := !isReset && (st.diverged || isDiff) }, v)
 
 def peer : Engine := { State := PeerState, init := {}, step := peerStep }
 
